@@ -3,6 +3,7 @@ from registry_api import T
 
 FAMILIES = {
     "slice": dict(src="slice.cpp"),
+    "split": dict(src="split.cpp"),
 }
 
 PROPS = {
@@ -20,9 +21,24 @@ PROPS = {
         exhaustive={"quick": False, "thorough": False},
         assumptions=["strings are shorter than 2^63 bytes; a const char* argument denotes the bytes before its first NUL"],
     ),
+    "C09": dict(
+        family="split",
+        theorems=[],
+        rule="split: every subject over {a,A,(b),',',NUL,C3,A9} up to length 4 (quick) / 5 (thorough) x every separator over {a,A,',',NUL,A9} up to length 2 plus "
+             "self-overlapping / longer ones x max_splits in {0,1,2,3,SIZE_MAX} x both case modes x ST::string / const char* / char overloads; tokenize: every "
+             "subject over {space,',',a,b,NUL,E9} up to length 5 (6) x 7 delimiter sets; replace: subjects up to length 4 (5) x 16 patterns x 9 replacements x "
+             "four overloads x both case modes; seeded random long cases with planted occurrences crossing the small-string limit. A call that does not return "
+             "within the per-case timeout is the observation `hang`. non-trivial = non-empty subject and separator/pattern",
+        exhaustive={"quick": False, "thorough": False},
+        assumptions=["strings are shorter than 2^28 bytes (ST_HUGE_BUFFER_SIZE); split characters are in 1..0x7F and splitter pointers non-null (documented contracts)"],
+    ),
 }
 
 MANIFEST_TEXT = {
+    "C09": dict(
+        text="(under construction) model of split/tokenize/replace with guarded loops; correspondence over short-string sweeps",
+        design_ref="DESIGN.md section 3, C09", note="see evidence",
+        technique="Lean 4 proof over a hand model + differential correspondence under ASan/UBSan with hang attribution"),
     "C08": dict(
         text="(under construction) model of substr/left/right/trims/before/after with the literal signed/unsigned arithmetic; correspondence over boundary grids",
         design_ref="DESIGN.md section 3, C08", note="see evidence",
